@@ -75,7 +75,7 @@ func (multiSlice) Corpus() [][]string {
 	var out [][]string
 	// the repository's fuzz corpora, through both entry points
 	for _, t := range multiCorpusTexts() {
-		out = append(out, []string{"unm " + hx(t), "pl " + hx(t)})
+		out = append(out, []string{"unm " + hx(t), "pl " + hx(t), "gram " + hx(t)})
 	}
 	hand := []string{
 		"", "\n", "#EXTM3U", "#EXTM3U\n", "#EXTM3U\r\n\r\n",
@@ -103,7 +103,7 @@ func (multiSlice) Corpus() [][]string {
 	}
 	var ops []string
 	for _, t := range hand {
-		ops = append(ops, "unm "+hx(t), "pl "+hx(t))
+		ops = append(ops, "unm "+hx(t), "pl "+hx(t), "gram "+hx(t))
 	}
 	out = append(out, ops)
 	out = append(out, []string{
@@ -131,7 +131,8 @@ func (multiSlice) Corpus() [][]string {
 	r := rand.New(rand.NewSource(20260927))
 	for vm := 0; vm < 128; vm++ {
 		m := &playlist.Multivariant{Version: vm % 11, Variants: []*playlist.MultivariantVariant{genVariant(r, vm, true)}}
-		out = append(out, []string{"mar " + fmtMulti(m)})
+		byts, _ := m.Marshal()
+		out = append(out, []string{"mar " + fmtMulti(m), "gram " + hx(string(byts))})
 	}
 	for top := 0; top < 8; top++ {
 		out = append(out, []string{"mar " + fmtMulti(genValidMulti(r, top, true))})
@@ -661,6 +662,7 @@ func (multiSlice) Gen(r *rand.Rand, i int, tier string) ([]string, []string) {
 				ops = append(ops, "unmv "+hx(variantOf(r, t, k)))
 			}
 			ops = append(ops, "pl "+hx(t), "pl "+hx(variantOf(r, t, 1+r.Intn(31))))
+			ops = append(ops, "gram "+hx(t), "gram "+hx(variantOf(r, t, 1+r.Intn(31))), "gram "+hx(mutateBytes(r, t)))
 			tags = append(tags, "variants")
 		}
 	case x < 60: // values outside the requirements
@@ -683,7 +685,7 @@ func (multiSlice) Gen(r *rand.Rand, i int, tier string) ([]string, []string) {
 		}
 		for k := 2 + r.Intn(4); k > 0; k-- {
 			t := mutateBytes(r, base)
-			ops = append(ops, "unm "+hx(t), "pl "+hx(t))
+			ops = append(ops, "unm "+hx(t), "pl "+hx(t), "gram "+hx(t))
 		}
 	case x < 88: // attribute tokenizer
 		for k := 3 + r.Intn(6); k > 0; k-- {
